@@ -253,12 +253,29 @@ class Executor(object):
             # use it once, so that anything an implementation caches is cached under the current configuration
             self.guard("hash", lambda: hash(o))
             self.guard("==", lambda: o == o)
+            # twins of it, translated as a whole by 1e-8 / 1e-9 along one axis, created now: under a later, coarser
+            # configuration (eps/1000 >= that offset) they must be equal to it although all of them predate it
+            twins = []
+            ax = (ti + fi + bi) % 3
+            for d in (1e-8, 1e-9):
+                tw = [tuple(c + (d if i == ax else 0.0) for i, c in enumerate(q)) for q in base]
+                b = self.guard("constructor", lambda: construct(cat["kind"], tw))
+                self.guard("hash", lambda: hash(b))
+                twins.append((d, b))
             if len(self.kept) < 6:
-                self.kept.append((cat["kind"], base, o, G.get_eps()))
+                self.kept.append((cat["kind"], base, o, G.get_eps(), twins))
         elif name == "recheck":
             if self.kept:
-                kind, base, o, eps0 = self.kept[step[1] % len(self.kept)]
+                kind, base, o, eps0, twins = self.kept[step[1] % len(self.kept)]
                 eps = G.get_eps()
+                for d, b in twins:
+                    if d <= eps / 1000.0 * (1 + 1e-9):
+                        self.facts = {"step": "recheck-twin", "type": kind, "eps_at_creation": eps0, "eps": eps, "offset": d}
+                        if self.guard("==", lambda: o == b) is not True or self.guard("==", lambda: b == o) is not True:
+                            raise Fail("two %ss created under a finer eps, %g apart, are not equal now that eps/1000 covers the offset" % (kind, d), {"eps0": eps0, "eps": eps}, self.facts)
+                        if self.guard("hash", lambda: hash(o)) != self.guard("hash", lambda: hash(b)):
+                            raise Fail("two %ss created under a finer eps, %g apart, hash differently now that eps/1000 covers the offset" % (kind, d), {"eps0": eps0, "eps": eps}, self.facts)
+                        self.kept_twin_checks = getattr(self, "kept_twin_checks", 0) + 1
                 self.facts = {"step": "recheck", "type": kind, "eps_at_creation": eps0, "eps": eps}
                 fresh = self.guard("constructor", lambda: construct(kind, base))
                 self.kept_checks += 1
